@@ -1,5 +1,120 @@
-"""Self-validation of the checkers (DESIGN.md §7): AST-computed edits applied to
-a scratch copy of the *current* tree; every 'must fire' variant has to be
-reported by the named rule, every benign twin has to stay silent."""
-def run_selftest(prop, root, seed=0):
-    return {"variants": [], "failed": [], "note": "no variants registered yet for %s" % prop}
+"""Self-validation of the checkers (DESIGN.md §7).
+
+Every variant is a source edit applied to a scratch copy of the *current* tree
+(under a fresh tempfile.mkdtemp(), removed immediately afterwards):
+
+* ``fire``   -- the edit breaks one rule instance; the check must report a new
+               violation of the named rule (and the variant still parses);
+* ``benign`` -- a behaviour-preserving twin; the check must report nothing new
+               and must not fall into ANALYSIS-ERROR.
+
+A variant whose anchor text is not present in the current tree (because the
+tree was edited) is reported as ``stale`` and does not count either way.
+"""
+from __future__ import annotations
+
+import ast
+import os
+import shutil
+import sys
+import tempfile
+import time
+from concurrent.futures import ProcessPoolExecutor
+
+VERIF = os.path.dirname(os.path.dirname(os.path.abspath(__file__)))
+if VERIF not in sys.path:
+    sys.path.insert(0, VERIF)
+
+
+def _copy_tree(root, dst):
+    for pkg in ("param", "numbergen"):
+        shutil.copytree(os.path.join(root, pkg), os.path.join(dst, pkg),
+                        ignore=shutil.ignore_patterns("__pycache__", "*.pyc"))
+
+
+def _violation_keys(prop, root):
+    from bin.check import run_check
+    ctx = run_check(prop, root)
+    return sorted({(o.rule, o.key) for o in ctx.violations})
+
+
+def _run_variant(args):
+    prop, root, v, base = args
+    from engine.loader import AnalysisError
+    tmp = tempfile.mkdtemp(prefix="verif_selftest_")
+    try:
+        _copy_tree(root, tmp)
+        for rel, old, new in v["edits"]:
+            path = os.path.join(tmp, rel)
+            src = open(path, encoding="utf-8").read()
+            if src.count(old) != 1:
+                return dict(name=v["name"], kind=v["kind"], rule=v.get("rule"), verdict="stale",
+                            detail="anchor text occurs %d times in %s" % (src.count(old), rel))
+            src = src.replace(old, new)
+            try:
+                ast.parse(src)
+            except SyntaxError as e:
+                return dict(name=v["name"], kind=v["kind"], rule=v.get("rule"), verdict="broken-variant", detail="does not parse: %s" % e)
+            open(path, "w", encoding="utf-8").write(src)
+        try:
+            keys = _violation_keys(prop, tmp)
+            err = None
+        except AnalysisError as e:
+            keys, err = [], str(e)
+        new = [k for k in keys if tuple(k) not in {tuple(b) for b in base}]
+        if v["kind"] == "fire":
+            hit = [k for k in new if k[0] == v["rule"] or (v["rule"].endswith("*") and k[0].startswith(v["rule"][:-1]))]
+            if hit:
+                return dict(name=v["name"], kind="fire", rule=v["rule"], verdict="ok", detail="reported: %s" % hit[0][1])
+            if err:
+                return dict(name=v["name"], kind="fire", rule=v["rule"], verdict="ok-fail-closed",
+                            detail="checker refused to decide (exit 2): %s" % err[:160])
+            return dict(name=v["name"], kind="fire", rule=v["rule"], verdict="MISSED",
+                        detail="no new violation of %s (new: %s)" % (v["rule"], [k[0] for k in new]))
+        else:
+            if err:
+                return dict(name=v["name"], kind="benign", rule=None, verdict="FALSE-ERROR", detail="ANALYSIS-ERROR on a benign twin: %s" % err[:200])
+            if new:
+                return dict(name=v["name"], kind="benign", rule=None, verdict="FALSE-ALARM", detail="reported %s" % new[:3])
+            return dict(name=v["name"], kind="benign", rule=None, verdict="ok", detail="silent")
+    finally:
+        shutil.rmtree(tmp, ignore_errors=True)
+
+
+def run_selftest(prop, root, seed=0, jobs=None):
+    from selftest.variants import VARIANTS
+    vs = [v for v in VARIANTS if v["prop"] == prop]
+    t0 = time.time()
+    base = _violation_keys(prop, root)
+    jobs = jobs or min(16, max(1, len(vs)))
+    results = []
+    if vs:
+        with ProcessPoolExecutor(max_workers=jobs) as ex:
+            results = list(ex.map(_run_variant, [(prop, root, v, base) for v in vs]))
+    failed = ["%s: %s (%s)" % (r["name"], r["verdict"], r["detail"]) for r in results
+              if r["verdict"] in ("MISSED", "FALSE-ALARM", "FALSE-ERROR", "broken-variant")]
+    return {
+        "variants": results,
+        "fire_total": sum(1 for r in results if r["kind"] == "fire" and r["verdict"] != "stale"),
+        "fire_detected": sum(1 for r in results if r["kind"] == "fire" and r["verdict"] in ("ok", "ok-fail-closed")),
+        "benign_total": sum(1 for r in results if r["kind"] == "benign" and r["verdict"] != "stale"),
+        "benign_silent": sum(1 for r in results if r["kind"] == "benign" and r["verdict"] == "ok"),
+        "stale": [r["name"] for r in results if r["verdict"] == "stale"],
+        "failed": failed,
+        "wall_s": round(time.time() - t0, 2),
+    }
+
+
+if __name__ == "__main__":
+    import json
+    props = sys.argv[1:] or sorted({v["prop"] for v in __import__("selftest.variants", fromlist=["VARIANTS"]).VARIANTS})
+    rc = 0
+    for p in props:
+        r = run_selftest(p, os.environ.get("VERIF_REPO", "/repo"))
+        print("%s: fire %d/%d, benign %d/%d, stale %d, %.1fs" % (p, r["fire_detected"], r["fire_total"], r["benign_silent"], r["benign_total"], len(r["stale"]), r["wall_s"]))
+        for x in r["variants"]:
+            if x["verdict"] not in ("ok",):
+                print("   %-44s %-14s %s" % (x["name"], x["verdict"], x["detail"][:150]))
+        if r["failed"]:
+            rc = 1
+    sys.exit(rc)
